@@ -114,20 +114,26 @@ class YowNoiseLayer(YowLayer):
             )
             if not self._in_handshake():
                 logger.debug("Performing handshake [username= %d, passive=%s]" % (username, passive) )
-                # a worker of an earlier, cut off attempt may still be blocked reading the old queue; give this
-                # attempt its own stream and queue so that the server's reply cannot be taken by the stale worker
-                self._stream = BlockingQueueSegmentedStream()
-                self._incoming_segments_queue = Queue.Queue()
+                # every attempt gets its own protocol, stream and queue: a worker left over from an earlier,
+                # cut off attempt must neither take this attempt's segments nor change its state
+                protocol = WANoiseProtocol(
+                    4, 0, protocol_state_callbacks=lambda state: self._on_protocol_state_changed(state, protocol)
+                )
+                stream = BlockingQueueSegmentedStream()
+                queue = Queue.Queue()
+                self._wa_noiseprotocol, self._stream, self._incoming_segments_queue = protocol, stream, queue
                 self._handshake_worker = WANoiseProtocolHandshakeWorker(
-                    self._wa_noiseprotocol, self._stream, client_config, local_static, remote_static,
-                    self.on_handshake_finished
+                    protocol, stream, client_config, local_static, remote_static,
+                    lambda e=None: self.on_handshake_finished(e, protocol)
                 )
                 logger.debug("Starting handshake worker")
-                self._stream.set_events_callback(self._handle_stream_event)
+                stream.set_events_callback(lambda event: self._handle_stream_event(event, stream, queue))
                 self._handshake_worker.start()
 
-    def on_handshake_finished(self, e=None):
+    def on_handshake_finished(self, e=None, protocol=None):
         # type: (Exception) -> None
+        if protocol is not None and protocol is not self._wa_noiseprotocol:
+            return  # result of a superseded attempt
         if e is not None:
             self.emitEvent(YowLayerEvent(self.EVENT_HANDSHAKE_FAILED, reason=e))
             data=WriteEncoder(TokenDictionary()).protocolTreeNodeToBytes(
@@ -143,7 +149,9 @@ class YowNoiseLayer(YowLayer):
         """
         return self._wa_noiseprotocol.state == WANoiseProtocol.STATE_HANDSHAKE
 
-    def _on_protocol_state_changed(self, state):
+    def _on_protocol_state_changed(self, state, protocol=None):
+        if protocol is not None and protocol is not self._wa_noiseprotocol:
+            return  # state change of a superseded attempt
         if state == WANoiseProtocol.STATE_TRANSPORT:
             if self._rs != self._wa_noiseprotocol.rs:
                 config = self._profile.config
@@ -152,11 +160,15 @@ class YowNoiseLayer(YowLayer):
                 self._rs = self._wa_noiseprotocol.rs
             self._flush_incoming_buffer()
 
-    def _handle_stream_event(self, event):
+    def _handle_stream_event(self, event, stream=None, queue=None):
+        stream = stream or self._stream
+        queue = queue or self._incoming_segments_queue
         if event == BlockingQueueSegmentedStream.EVENT_WRITE:
-            self.toLower(self._stream.get_write_segment())
+            segment = stream.get_write_segment()
+            if stream is self._stream:
+                self.toLower(segment)
         elif event == BlockingQueueSegmentedStream.EVENT_READ:
-            self._stream.put_read_segment(self._incoming_segments_queue.get(block=True))
+            stream.put_read_segment(queue.get(block=True))
 
     def send(self, data):
         """
